@@ -31,6 +31,16 @@ import (
 )
 
 const verifDir = "/verif"
+
+// outDir is where evidence/ and replays/ are written: /verif unless
+// VERIF_OUTDIR redirects them (background sweeps that must not touch the
+// committed evidence).
+var outDir = func() string {
+	if d := os.Getenv("VERIF_OUTDIR"); d != "" {
+		return d
+	}
+	return verifDir
+}()
 const harnessDir = "/verif/harness"
 const repoDir = "/repo"
 
@@ -632,9 +642,9 @@ func runProperty(id string, prop Property, tier string, seed int64, replay strin
 	}
 
 	// classify
-	os.MkdirAll(filepath.Join(verifDir, "replays"), 0755)
+	os.MkdirAll(filepath.Join(outDir, "replays"), 0755)
 	if replay == "" {
-		if old, _ := filepath.Glob(filepath.Join(verifDir, "replays", id+"-*.json")); old != nil {
+		if old, _ := filepath.Glob(filepath.Join(outDir, "replays", id+"-*.json")); old != nil {
 			for _, f := range old {
 				os.Remove(f)
 			}
@@ -670,7 +680,7 @@ func runProperty(id string, prop Property, tier string, seed int64, replay strin
 		wf := map[string]interface{}{"property": id, "stage": v.stage, "batch": v.batch, "seed": seed, "tier": tier,
 			"key": v.Key, "what": v.What, "witness": v.Witness}
 		b, _ := json.MarshalIndent(wf, "", " ")
-		p := filepath.Join(verifDir, "replays", fmt.Sprintf("%s-%s-s%d-b%d-%d.json", id, v.stage, seed, v.batch, i))
+		p := filepath.Join(outDir, "replays", fmt.Sprintf("%s-%s-s%d-b%d-%d.json", id, v.stage, seed, v.batch, i))
 		ioutil.WriteFile(p, b, 0644)
 		violLines = append(violLines, fmt.Sprintf("VIOLATION property=%s replay=%s", id, p))
 		if groupN[g] == 1 {
@@ -739,9 +749,9 @@ func runProperty(id string, prop Property, tier string, seed int64, replay strin
 		"property_id": id, "tier": tier, "seed": seed, "level": prop.Level,
 		"coverage": cov, "assumptions": prop.Assumptions, "wall_s": wall, "violations": nViol,
 	}
-	os.MkdirAll(filepath.Join(verifDir, "evidence"), 0755)
+	os.MkdirAll(filepath.Join(outDir, "evidence"), 0755)
 	eb, _ := json.MarshalIndent(ev, "", " ")
-	ioutil.WriteFile(filepath.Join(verifDir, "evidence", id+".json"), eb, 0644)
+	ioutil.WriteFile(filepath.Join(outDir, "evidence", id+".json"), eb, 0644)
 
 	fmt.Printf("%s %s seed=%d: %d evaluations, %d distinct non-trivial (floor %d), %d inconclusive, %d race reports, %d known-finding kinds, %d violations, %.0fs\n",
 		id, tier, seed, evaluations, len(nt), floor, incon, raceTotal, len(knownSeen), nViol, wall)
